@@ -361,5 +361,6 @@ for _pid, _ths in (("C13", ["eq_is_equality", "eq128_s4_is_equality", "source_eq
 #      (the property theorem rewritten with the CC.Src.src_* equalities; no hand-written model in the statement)
 for _pid, _ths in (("C09", ["generated_encrypt_conforms"]),
                    ("C10", ["generated_dec_enc", "generated_enc_dec"]),
-                   ("C19", ["generated_matches_meaning"])):
+                   ("C19", ["generated_matches_meaning"]),
+                   ("C14", ["generated_refill4_eq"])):
     PROPS[_pid]["theorems"] = list(PROPS[_pid]["theorems"]) + [t for t in _ths if t not in PROPS[_pid]["theorems"]]
